@@ -67,6 +67,15 @@ CHECKS = {
             'UnsupportedLanguageElementError is accepted; a different lambda is a violation.',
             'ast.parse of the file is the compiled definition; the object-to-node mapping uses names/defaults only, no positions.',
             'DESIGN.md 3/C15'),
+    'C16': ('exploration',
+            'probe-instrumented random call trees under thread stress, checked against a sequential model of the push/pop rules',
+            'Call trees of real wrappers (convert, do_not_convert, internal convert x3 statuses sharing context objects across '
+            'threads and depths, unspecified-status wrapper, plain/recursively converted callees, converted lambdas) with an '
+            'exception raised at any node and caught at any ancestor are run by 1-32 threads with switch intervals down to 1e-6; '
+            'probes record the context object before/inside/after every call; identity after each call, status inside each node, '
+            'creator thread of every observed context and final stack depth are checked.',
+            'Expected statuses come from the documented rules (functions.md / API docstrings), not from the implementation.',
+            'DESIGN.md 3/C16'),
     'C17': ('exploration',
             'capture of the real transform_ast output and loaded module text; checked with CPython compile/parse and a context walker',
             'For every conversion (top-level and recursively converted callees) the transformed tree is checked for shared node '
